@@ -80,7 +80,8 @@ def make_da(L, kind, with_nan):
         lab = labels
         before, after = labels[0] - 3, labels[-1] + 3
         mids = [l + 5 for l in labels[:-1]]
-        near = [l + 2 for l in labels]
+        # fractional labels on an integer axis (a cast to the index dtype would silently land them on a step)
+        near = [l + 2 for l in labels] + [labels[0] + 0.5, labels[-1] - 0.5, labels[L // 2] + 0.3, labels[0] - 0.5]
     return da, lab, before, after, mids, near
 
 
@@ -205,7 +206,7 @@ def _task(task, p):
     L, kind, thorough = task
     cache = {}
     da, lab, before, after, mids, near = make_da(L, kind, False)
-    cands = [None] + list(lab) + mids + [before, after] + (near[:2] if L > 1 else near[:1])
+    cands = [None] + list(lab) + mids + [before, after] + (near[:2] if L > 1 else near[:1]) + (near[L:] if kind != "time" else [])
     on_axis = set(map(str, lab)) | {"None"}
     ns = [None] + list(range(1, L + 2))
     nstates = ntrans = nontriv = 0
